@@ -368,7 +368,8 @@ func suiteNumFun(o *Out, thorough bool, seed int64) {
 		ev("max([" + strings.Join(l, ", ") + "]...)")
 	}
 	// bit operators on integer pairs below 2^53
-	ints := []int64{0, 1, -1, 2, -2, 255, 256, -256, 1 << 31, -(1 << 31), 1<<32 + 5, 1<<52 + 12345, -(1<<52 + 999), 1<<53 - 1, -(1<<53 - 1), 0x5555555555555, 0xAAAAAAAAAAAAA}
+	ints := []int64{0, 1, -1, 2, -2, 255, 256, -256, 1 << 31, -(1 << 31), 1<<32 + 5, 1<<52 + 12345, -(1<<52 + 999), 1<<53 - 1, -(1<<53 - 1), 0x5555555555555, 0xAAAAAAAAAAAAA,
+		1<<53 + 1, 9007199254740993, -(1<<60 + 7), 1<<62 + 3, math.MaxInt64, math.MinInt64 + 1}
 	for i := 0; i < 60; i++ {
 		ints = append(ints, r.Int63n(1<<53)-(1<<52))
 	}
